@@ -52,28 +52,36 @@ def ptRoutes (r : Reg) (pt : Nat) : List Route := r.routes.filter (fun rt => rt.
 /-- routes registered as provisional -/
 def provRoutes (r : Reg) : List Route := r.routes.filter (fun rt => rt.provisional)
 
-/-- the packet carries a MID (valid UTF-8) that nobody registered: it names a media section without
-a receiver, so it identifies nobody and must not be handed to another section's receiver -/
-def MidUnknown (r : Reg) (p : Pkt) : Prop :=
-  ∃ m, extOf p r.midExt = some m ∧ utf8Valid m = true ∧ lookup m r.byMid = none
+/-- the packet carries MID `m` (valid UTF-8) that nobody registered: the MID identifies no receiver, so
+the chain goes on ("else by SSRC …") -/
+def MidUnknown (r : Reg) (p : Pkt) (m : Bytes) : Prop :=
+  extOf p r.midExt = some m ∧ utf8Valid m = true ∧ lookup m r.byMid = none
 
-/-- The property's chain and nothing else: "the one identified by its RID or MID header extension,
-else by SSRC, else by an unambiguous payload type" — else nobody (dropped); a MID that
-names a section nobody registered identifies nobody and stops the chain (dropped).  The code's fifth rule,
-the single provisional listener, is NOT part of this specification. -/
+/-- … but `l` is "a receiver of another media section" for this packet: the packet names section `m`,
+nobody registered `m`, and `l` registered for a different section `m'` -/
+def OtherSection (r : Reg) (p : Pkt) (l : Lid) : Prop :=
+  ∃ m m', MidUnknown r p m ∧ sectionOf r l = some m' ∧ m' ≠ m
+
+/-- The property's sentence and nothing else: "the one identified by its RID or MID header extension,
+else by SSRC, else by an unambiguous payload type — and is dropped rather than handed to a receiver
+of another media section"; else nobody (dropped).  The code's fifth rule, the single provisional
+listener, is NOT part of this specification. -/
 inductive Selects (r : Reg) (p : Pkt) : Option (Lid × Via) → Prop
   | rid (l : Lid) : ridCand r p = some l → Selects r p (some (l, .rid))
   | mid (l : Lid) : ridCand r p = none → midCand r p = some l → Selects r p (some (l, .mid))
-  | unknownMid : ridCand r p = none → MidUnknown r p → Selects r p none
-  | ssrc (l : Lid) : ridCand r p = none → midCand r p = none → ¬ MidUnknown r p →
-      lookup p.ssrc r.bySsrc = some l → Selects r p (some (l, .ssrc))
-  | pt (l : Lid) : ridCand r p = none → midCand r p = none → ¬ MidUnknown r p →
-      lookup p.ssrc r.bySsrc = none → UniqueOwner (ptRoutes r p.pt) l → Selects r p (some (l, .pt))
-  | nobody : ridCand r p = none → midCand r p = none → ¬ MidUnknown r p → lookup p.ssrc r.bySsrc = none →
+  | ssrc (l : Lid) : ridCand r p = none → midCand r p = none → lookup p.ssrc r.bySsrc = some l →
+      ¬ OtherSection r p l → Selects r p (some (l, .ssrc))
+  | ssrcOther (l : Lid) : ridCand r p = none → midCand r p = none → lookup p.ssrc r.bySsrc = some l →
+      OtherSection r p l → Selects r p none
+  | pt (l : Lid) : ridCand r p = none → midCand r p = none → lookup p.ssrc r.bySsrc = none →
+      UniqueOwner (ptRoutes r p.pt) l → ¬ OtherSection r p l → Selects r p (some (l, .pt))
+  | ptOther (l : Lid) : ridCand r p = none → midCand r p = none → lookup p.ssrc r.bySsrc = none →
+      UniqueOwner (ptRoutes r p.pt) l → OtherSection r p l → Selects r p none
+  | nobody : ridCand r p = none → midCand r p = none → lookup p.ssrc r.bySsrc = none →
       (¬ ∃ l', UniqueOwner (ptRoutes r p.pt) l') → Selects r p none
 
 /-- FULL STATEMENT (does NOT hold for the code — `selection_is_priority_spec_witness`): the selection
-block picks exactly what the property's chain prescribes. -/
+block picks exactly what the property's sentence prescribes. -/
 def SelectionIsPrioritySpec : Prop :=
   ∀ (r : Reg) (p : Pkt), Selects r p ((select r p).map (fun x => (x.1, x.2.1)))
 
@@ -82,25 +90,42 @@ private theorem stageRid_eq (r : Reg) (p : Pkt) : stageRid r p = ridCand r p := 
 private theorem stageMid_eq (r : Reg) (p : Pkt) : stageMid r p = midCand r p := by
   unfold stageMid midCand; cases extOf p r.midExt <;> rfl
 
-private theorem midMiss_iff (r : Reg) (p : Pkt) : midMiss r p = true ↔ MidUnknown r p := by
-  unfold midMiss MidUnknown
+private theorem unknownMid_iff (r : Reg) (p : Pkt) (m : Bytes) : unknownMid r p = some m ↔ MidUnknown r p m := by
+  unfold unknownMid MidUnknown
   cases h : extOf p r.midExt with
   | none => simp
-  | some m =>
+  | some m0 =>
+    simp only [Option.some.injEq]
     constructor
-    · intro hm; simp at hm; exact ⟨m, rfl, hm.1, by simpa using hm.2⟩
-    · rintro ⟨m', hm', hu, hl⟩; cases hm'; simp [hu, hl]
+    · intro h'
+      by_cases hc : (utf8Valid m0 && (lookup m0 r.byMid).isNone) = true
+      · simp [hc] at h'; subst h'
+        simp at hc
+        exact ⟨rfl, hc.1, by simpa using hc.2⟩
+      · simp [hc] at h'
+    · rintro ⟨rfl, hu, hl⟩; simp [hu, hl]
 
-private theorem midUnknown_midCand (r : Reg) (p : Pkt) (h : MidUnknown r p) : midCand r p = none := by
-  obtain ⟨m, hm, hu, hl⟩ := h
-  simp [midCand, hm, hu, hl]
+private theorem vetoed_iff (r : Reg) (p : Pkt) (l : Lid) : vetoed r p l = true ↔ OtherSection r p l := by
+  unfold vetoed OtherSection
+  constructor
+  · intro h
+    cases hu : unknownMid r p with
+    | none => simp [hu] at h
+    | some m =>
+      cases hs : sectionOf r l with
+      | none => simp [hu, hs] at h
+      | some m' =>
+        simp [hu, hs] at h
+        exact ⟨m, m', (unknownMid_iff r p m).1 hu, rfl, h⟩
+  · rintro ⟨m, m', hm, hs, hne⟩
+    simp [(unknownMid_iff r p m).2 hm, hs, hne]
 
 /-- a provisional-only listener and a packet nothing identifies -/
 def regP : Reg := run Reg.empty [.regProv 0]
 def pktP : Pkt := { ssrc := 7, pt := 96, ext := none }
 
-/-- witness (`demux:unidentified-packet-to-provisional`): a packet identified by no RID, MID, SSRC or
-payload type is not dropped but handed to the single provisional listener. -/
+/-- witness (oracle signature `demux:unidentified-packet-to-provisional`): a packet identified by no
+RID, MID, SSRC or payload type is not dropped but handed to the single provisional listener. -/
 theorem selection_is_priority_spec_witness : ¬ SelectionIsPrioritySpec := by
   intro h
   have h1 := h regP pktP
@@ -108,80 +133,107 @@ theorem selection_is_priority_spec_witness : ¬ SelectionIsPrioritySpec := by
   rw [h2] at h1
   cases h1
 
+/-- the late stages, read against the property's sentence -/
+private theorem lateStages_spec (r : Reg) (p : Pkt) :
+    (∃ l, lateStages r p = some (l, .ssrc, false) ∧ lookup p.ssrc r.bySsrc = some l) ∨
+    (∃ l, lateStages r p = some (l, .pt, true) ∧ lookup p.ssrc r.bySsrc = none ∧ UniqueOwner (ptRoutes r p.pt) l) ∨
+    (∃ l, lateStages r p = some (l, .prov, false) ∧ lookup p.ssrc r.bySsrc = none ∧
+        (¬ ∃ l', UniqueOwner (ptRoutes r p.pt) l') ∧ UniqueOwner (provRoutes r) l ∧ ptRoutes r p.pt = []) ∨
+    (lateStages r p = none ∧ lookup p.ssrc r.bySsrc = none ∧ (¬ ∃ l', UniqueOwner (ptRoutes r p.pt) l')) := by
+  unfold lateStages
+  cases h3 : lookup p.ssrc r.bySsrc with
+  | some l => exact Or.inl ⟨l, rfl, rfl⟩
+  | none =>
+    cases h4 : uniqueByPt r p.pt with
+    | some l => exact Or.inr (Or.inl ⟨l, rfl, rfl, (uniqueLoop_iff _ l).1 h4⟩)
+    | none =>
+      have n4 := (uniqueLoop_none_iff _).1 h4
+      by_cases ha : (r.routes.any fun rt => rt.pts.contains p.pt) = true
+      · simp only [ha, if_true]
+        exact Or.inr (Or.inr (Or.inr ⟨trivial, trivial, n4⟩))
+      · simp only [ha]
+        have hempty : ptRoutes r p.pt = [] := by
+          simp only [ptRoutes, List.filter_eq_nil_iff]
+          intro rt hrt hc
+          exact ha (List.any_eq_true.2 ⟨rt, hrt, hc⟩)
+        cases h5 : singleProvisional r with
+        | some l => exact Or.inr (Or.inr (Or.inl ⟨l, by simp, trivial, n4, (uniqueLoop_iff _ l).1 h5, hempty⟩))
+        | none => exact Or.inr (Or.inr (Or.inr ⟨by simp, trivial, n4⟩))
+
 /-- **selection_is_priority_spec_partial**: what holds for every registry and packet.  (1) Whenever
-the code selects by RID, MID, SSRC or payload type, that is exactly the property's chain; (2) when it
-selects nobody, the chain selects nobody; (3) the ONLY deviation is the provisional fallback: it
-fires exactly when the chain says "nobody" (the property would drop the packet) and then hands the
-packet to the single owner of the provisional routes; (4) the chain has exactly one answer;
-(5) SSRC binding is requested exactly for RID / MID / payload-type routing. -/
+the code selects by RID, MID, SSRC or payload type, that is exactly what the property's sentence
+prescribes (including: never a receiver of another section for a packet naming an unregistered
+section); (2) when it selects nobody, the sentence selects nobody; (3) the ONLY deviation is the
+provisional fallback: it fires only when the sentence says "nobody" (the property would drop the
+packet) AND no route at all lists the packet's payload type (an ambiguous payload type is dropped),
+hands the packet to the single owner of the provisional routes, and even then never to a receiver of
+another section; (4) the sentence has exactly one answer; (5) SSRC binding is requested
+exactly for RID / MID / payload-type routing. -/
 theorem selection_is_priority_spec_partial (r : Reg) (p : Pkt) :
     (∀ l v b, select r p = some (l, v, b) → v ≠ .prov → Selects r p (some (l, v))) ∧
     (select r p = none → Selects r p none) ∧
-    (∀ l b, select r p = some (l, .prov, b) → Selects r p none ∧ UniqueOwner (provRoutes r) l) ∧
+    (∀ l b, select r p = some (l, .prov, b) →
+        Selects r p none ∧ UniqueOwner (provRoutes r) l ∧ ¬ OtherSection r p l ∧ ptRoutes r p.pt = []) ∧
     (∀ a a', Selects r p a → Selects r p a' → a = a') ∧
     (∀ l v b, select r p = some (l, v, b) → b = (v = .rid ∨ v = .mid ∨ v = .pt)) := by
-  have key : (∃ l v b, select r p = some (l, v, b) ∧ v ≠ .prov ∧ Selects r p (some (l, v))) ∨
-      (select r p = none ∧ Selects r p none) ∨
-      (∃ l, select r p = some (l, .prov, false) ∧ Selects r p none ∧ UniqueOwner (provRoutes r) l) := by
-    unfold select
-    rw [stageRid_eq, stageMid_eq]
-    cases h1 : ridCand r p with
-    | some l => exact Or.inl ⟨l, .rid, true, rfl, by simp, .rid l h1⟩
-    | none =>
-      cases h2 : midCand r p with
-      | some l => exact Or.inl ⟨l, .mid, true, rfl, by simp, .mid l h1 h2⟩
-      | none =>
-        by_cases hm : midMiss r p = true
-        · simp only [hm, if_true]
-          exact Or.inr (Or.inl ⟨trivial, .unknownMid h1 ((midMiss_iff r p).1 hm)⟩)
-        · have hu : ¬ MidUnknown r p := fun h => hm ((midMiss_iff r p).2 h)
-          simp only [hm]
-          cases h3 : lookup p.ssrc r.bySsrc with
-          | some l => exact Or.inl ⟨l, .ssrc, false, rfl, by simp, .ssrc l h1 h2 hu h3⟩
-          | none =>
-            cases h4 : uniqueByPt r p.pt with
-            | some l => exact Or.inl ⟨l, .pt, true, rfl, by simp, .pt l h1 h2 hu h3 ((uniqueLoop_iff _ l).1 h4)⟩
-            | none =>
-              have n4 := (uniqueLoop_none_iff _).1 h4
-              cases h5 : singleProvisional r with
-              | some l => exact Or.inr (Or.inr ⟨l, rfl, .nobody h1 h2 hu h3 n4, (uniqueLoop_iff _ l).1 h5⟩)
-              | none => exact Or.inr (Or.inl ⟨rfl, .nobody h1 h2 hu h3 n4⟩)
+  have hv : ∀ l, vetoed r p l = false ↔ ¬ OtherSection r p l := by
+    intro l; rw [← vetoed_iff]; cases vetoed r p l <;> simp
   refine ⟨?_, ?_, ?_, ?_, ?_⟩
-  · intro l v b hs hv
-    rcases key with ⟨l', v', b', hs', _, hsel⟩ | ⟨hn, _⟩ | ⟨l', hs', _⟩
-    · rw [hs] at hs'; cases hs'; exact hsel
-    · rw [hs] at hn; cases hn
-    · rw [hs] at hs'; cases hs'; exact absurd rfl hv
+  · intro l v b hs hne
+    rcases select_cases r p l v b hs with ⟨h1, rfl, _⟩ | ⟨h1, h2, rfl, _⟩ | ⟨h1, h2, h3, h4⟩
+    · exact .rid l (by rw [← stageRid_eq]; exact h1)
+    · exact .mid l (by rw [← stageRid_eq]; exact h1) (by rw [← stageMid_eq]; exact h2)
+    · rw [stageRid_eq] at h1; rw [stageMid_eq] at h2
+      rcases lateStages_spec r p with ⟨l', e, hl⟩ | ⟨l', e, hl, ho⟩ | ⟨l', e, _⟩ | ⟨e, _⟩
+      · rw [e] at h3; cases h3; exact .ssrc l h1 h2 hl ((hv l).1 h4)
+      · rw [e] at h3; cases h3; exact .pt l h1 h2 hl ho ((hv l).1 h4)
+      · rw [e] at h3; cases h3; exact absurd rfl hne
+      · rw [e] at h3; cases h3
   · intro hn
-    rcases key with ⟨l', v', b', hs', _, _⟩ | ⟨_, hsel⟩ | ⟨l', hs', _⟩
-    · rw [hn] at hs'; cases hs'
-    · exact hsel
-    · rw [hn] at hs'; cases hs'
+    unfold select at hn
+    cases h1 : stageRid r p with
+    | some l => simp [h1] at hn
+    | none =>
+      cases h2 : stageMid r p with
+      | some l => simp [h1, h2] at hn
+      | none =>
+        simp only [h1, h2] at hn
+        rw [stageRid_eq] at h1; rw [stageMid_eq] at h2
+        rcases lateStages_spec r p with ⟨l', e, hl⟩ | ⟨l', e, hl, ho⟩ | ⟨l', e, hl, hn4, _⟩ | ⟨e, hl, hn4⟩
+        · rw [e] at hn
+          by_cases hvt : vetoed r p l' = true
+          · exact .ssrcOther l' h1 h2 hl ((vetoed_iff r p l').1 hvt)
+          · simp [hvt] at hn
+        · rw [e] at hn
+          by_cases hvt : vetoed r p l' = true
+          · exact .ptOther l' h1 h2 hl ho ((vetoed_iff r p l').1 hvt)
+          · simp [hvt] at hn
+        · exact .nobody h1 h2 hl hn4
+        · exact .nobody h1 h2 hl hn4
   · intro l b hs
-    rcases key with ⟨l', v', b', hs', hv', _⟩ | ⟨hn, _⟩ | ⟨l', hs', h1, h2⟩
-    · rw [hs] at hs'; cases hs'; exact absurd rfl hv'
-    · rw [hs] at hn; cases hn
-    · rw [hs] at hs'; cases hs'; exact ⟨h1, h2⟩
+    rcases select_cases r p l .prov b hs with ⟨_, h, _⟩ | ⟨_, _, h, _⟩ | ⟨h1, h2, h3, h4⟩
+    · cases h
+    · cases h
+    · rw [stageRid_eq] at h1; rw [stageMid_eq] at h2
+      rcases lateStages_spec r p with ⟨l', e, _⟩ | ⟨l', e, _⟩ | ⟨l', e, hl, hn4, ho⟩ | ⟨e, _⟩
+      · rw [e] at h3; cases h3
+      · rw [e] at h3; cases h3
+      · rw [e] at h3; cases h3; exact ⟨.nobody h1 h2 hl hn4, ho.1, (hv l).1 h4, ho.2⟩
+      · rw [e] at h3; cases h3
   · intro a a' ha ha'
-    cases ha <;> cases ha' <;> (try rfl) <;> (try (exfalso; first
-      | (rename_i h _; exact absurd (midUnknown_midCand r p ‹MidUnknown r p›) (by simp_all))
-      | (exact absurd ‹MidUnknown r p› (by assumption)))) <;> simp_all
-    all_goals exact uniqueOwner_unique _ _ _ (by assumption) (by assumption)
-  · intro l v b h
-    unfold select at h
-    split at h
-    · simp at h; obtain ⟨_, rfl, rfl⟩ := h; simp
-    · split at h
-      · simp at h; obtain ⟨_, rfl, rfl⟩ := h; simp
-      · split at h
-        · simp at h
-        · split at h
-          · simp at h; obtain ⟨_, rfl, rfl⟩ := h; simp
-          · split at h
-            · simp at h; obtain ⟨_, rfl, rfl⟩ := h; simp
-            · split at h
-              · simp at h; obtain ⟨_, rfl, rfl⟩ := h; simp
-              · simp at h
+    cases ha <;> cases ha' <;> (try rfl) <;> simp_all
+    all_goals first
+      | exact uniqueOwner_unique _ _ _ (by assumption) (by assumption)
+      | (rename_i l1 h6 h5 l2 _ _ _ h1 h0
+         have e := uniqueOwner_unique _ _ _ h6 h1
+         subst e
+         first | exact h5 h0 | exact h0 h5)
+  · intro l v b hs
+    rcases select_cases r p l v b hs with ⟨_, rfl, rfl⟩ | ⟨_, _, rfl, rfl⟩ | ⟨_, _, h3, _⟩
+    · simp
+    · simp
+    · rcases lateStages_spec r p with ⟨l', e, _⟩ | ⟨l', e, _⟩ | ⟨l', e, _⟩ | ⟨e, _⟩ <;>
+        (rw [e] at h3; cases h3) <;> simp
 
 /-- the registration shape `peer_connection.rs` produces (every receiver registers provisional + MID +
 payload types on ONE channel): section "0" = listener 0 {provisional, MID "0", PTs 96 97}, section
@@ -191,93 +243,124 @@ def regQ : Reg :=
 /-- a packet without MID, unknown SSRC, payload type 97 — claimed by BOTH sections -/
 def pktQ : Pkt := { ssrc := 7, pt := 97, ext := none }
 
-/-- witness (`demux:ambiguous-pt-falls-to-provisional`): a packet whose payload type is ambiguous
-between two media sections is not dropped; the provisional fallback hands it to section "0"'s
-receiver although nothing identifies that section. -/
-theorem provisional_fallback_crosses_sections_witness :
-    (∃ l', ¬ UniqueOwner (ptRoutes regQ pktQ.pt) l') ∧ (¬ ∃ l', UniqueOwner (ptRoutes regQ pktQ.pt) l') ∧
-    (receive regQ pktQ).2 = .delivered 0 .prov ∧
-    (regQ.routes.find? (fun rt => rt.lid = 0)).bind (·.mid) = some [0x30] ∧
-    (ptRoutes regQ pktQ.pt).map (·.lid) = [0, 1] := by
-  refine ⟨⟨0, ?_⟩, ?_, by decide, by decide, by decide⟩
-  · intro h; have := h.2 { mid := some [0x31], pts := [97, 98], lid := 1, provisional := false } (by decide)
-    revert this; decide
-  · rintro ⟨l, h⟩
-    have h0 : (0 : Nat) = l := h.2 { mid := some [0x30], pts := [96, 97], lid := 0, provisional := true } (by decide)
-    have h1 : (1 : Nat) = l := h.2 { mid := some [0x31], pts := [97, 98], lid := 1, provisional := false } (by decide)
-    omega
+/-- **ambiguous_pt_is_dropped** (holds since the `fix:` commit "the provisional fallback does not take a
+packet whose payload type is ambiguous"; before it `regQ`/`pktQ` was the counter-example
+`provisional_fallback_crosses_sections_witness`, known finding `demux:ambiguous-pt-falls-to-provisional`):
+a packet that no RID, MID or SSRC identifies and whose payload type is listed by routes of more than
+one listener is dropped, whoever is registered as provisional. -/
+theorem ambiguous_pt_is_dropped (r : Reg) (p : Pkt) (hr : stageRid r p = none) (hm : stageMid r p = none)
+    (hs : lookup p.ssrc r.bySsrc = none) (hne : ptRoutes r p.pt ≠ [])
+    (hamb : ¬ ∃ l, UniqueOwner (ptRoutes r p.pt) l) : receive r p = (r, .dropped) := by
+  have hl : lateStages r p = none := by
+    rcases lateStages_spec r p with ⟨l, _, h⟩ | ⟨l, _, _, h⟩ | ⟨l, _, _, _, _, h⟩ | ⟨h, _⟩
+    · rw [hs] at h; cases h
+    · exact absurd ⟨l, h⟩ hamb
+    · exact absurd h hne
+    · exact h
+  simp [receive, select, hr, hm, hl]
+
+example : receive regQ pktQ = (regQ, .dropped) := by decide
 
 /-! ### MID packets and media sections -/
 
-/-- the media section a listener belongs to, as far as the transport knows: the MID recorded on its route -/
-def sectionOf (r : Reg) (l : Lid) : Option Bytes := (r.routes.find? (fun rt => rt.lid = l)).bind (·.mid)
+/-- the media section a listener belongs to: the MID on its own route, else — for a listener that
+registers no MID itself, like the simulcast-layer listeners `peer_connection.rs` registers by RID on
+separate channels — the section of the receiver it belongs to (`parent`, a ghost the transport
+does not have; the harness uses the same convention: listeners 2 and 3 are layers of 0 and 1) -/
+def secOf (parent : Lid → Option Lid) (r : Reg) (l : Lid) : Option Bytes :=
+  match sectionOf r l with
+  | some m => some m
+  | none => (parent l).bind (sectionOf r)
 
-/-- FULL STATEMENT (does NOT hold for the current code — see the two witnesses below and
-`known_findings.d/C19.json`): a packet whose MID header extension names media section `m` is handed
-only to the listener registered for `m`, or to a listener of no section or of section `m`; never
-to a receiver of another media section. -/
+/-- FULL STATEMENT (does NOT hold for the code — `mid_packet_never_crosses_sections_witness`,
+known finding `cross:rid-overrides-mid`): a packet whose MID header extension names media section
+`m` is handed only to the listener registered for `m`, or to a listener of no section or of section
+`m`; never to a receiver of another media section. -/
 def MidPacketNeverCrossesSections : Prop :=
-  ∀ (r : Reg) (p : Pkt) (m : Bytes) (l : Lid) (v : Via),
+  ∀ (parent : Lid → Option Lid) (r : Reg) (p : Pkt) (m : Bytes) (l : Lid) (v : Via),
     extOf p r.midExt = some m → utf8Valid m = true → (receive r p).2 = .delivered l v →
-    lookup m r.byMid = some l ∨ sectionOf r l = none ∨ sectionOf r l = some m
+    lookup m r.byMid = some l ∨ secOf parent r l = none ∨ secOf parent r l = some m
+
+/-- the shape `peer_connection.rs` produces: receivers 0 (MID "0") and 1 (MID "1"); their simulcast-layer
+listeners 2 and 3 register the same RID "h" on separate channels, without a MID (RIDs are only unique
+within a section); the later registration wins -/
+def regB : Reg :=
+  run Reg.empty [.setMidExt 3, .setRidExt 4, .regMid [0x30] 0, .regMid [0x31] 1, .regRid [0x68] 2, .regRid [0x68] 3]
+def parentB : Lid → Option Lid := fun l => if l = 2 then some 0 else if l = 3 then some 1 else none
+/-- a packet of section "0", layer "h" -/
+def pktB : Pkt := { ssrc := 7, pt := 96, ext := some { profile := 0xBEDE, data := [0x30, 0x30, 0x40, 0x68] } }
+
+/-- witness (`cross:rid-overrides-mid`): RID is looked up before MID in one transport-wide map that is
+not scoped by section, so section "0"'s packet is handed to section "1"'s layer receiver although its
+MID is registered. -/
+theorem mid_packet_never_crosses_sections_witness : ¬ MidPacketNeverCrossesSections := by
+  intro h
+  have := h parentB regB pktB [0x30] 3 .rid (by decide) (by decide) (by decide)
+  revert this; decide
+
+/-- **mid_packet_never_crosses_sections_partial**: the part that holds, for every registry and packet.
+If the packet's MID is REGISTERED (to `owner`), the packet is handed to `owner` — or, only when its
+RID extension matches a registered RID, to that RID's listener — and never to a listener found by
+SSRC, payload type or the provisional fallback. -/
+theorem mid_packet_never_crosses_sections_partial (r : Reg) (p : Pkt) (m : Bytes) (owner l : Lid) (v : Via)
+    (hm : extOf p r.midExt = some m) (hu : utf8Valid m = true) (hreg : lookup m r.byMid = some owner)
+    (hd : (receive r p).2 = .delivered l v) :
+    (l = owner ∧ v = .mid ∧ ridCand r p = none) ∨ (v = .rid ∧ ridCand r p = some l) := by
+  have hmid : stageMid r p = some owner := by simp [stageMid, hm, hu, hreg]
+  unfold receive at hd
+  split at hd
+  · simp at hd
+  · rename_i l0 v0 b0 hs
+    obtain ⟨_, rfl, rfl⟩ := deliver_delivered _ _ _ _ _ _ hd
+    rcases select_cases r p _ _ _ hs with ⟨h1, rfl, _⟩ | ⟨h1, h2, rfl, _⟩ | ⟨_, h2, _, _⟩
+    · exact Or.inr ⟨rfl, by rw [← stageRid_eq]; exact h1⟩
+    · rw [hmid] at h2; cases h2
+      exact Or.inl ⟨rfl, rfl, by rw [← stageRid_eq]; exact h1⟩
+    · rw [hmid] at h2; cases h2
+
+/-- **unregistered_mid_never_reaches_other_section**: a packet whose MID names a section nobody
+registered follows the property's "else by SSRC, else by payload type" chain (and the code's
+provisional fallback), but whoever receives it — unless its RID identified the receiver — did not
+register for another media section: its own section is unknown or is the one the packet names.
+(History: before round 2 such a packet reached any receiver the later stages found — known finding
+`cross:mid-unregistered-falls-through`; fix c991109 dropped ALL such packets, which the audit showed
+to be more than the property asks; the present behaviour is the `fix:` "an unregistered MID only
+vetoes receivers of another media section".) -/
+theorem unregistered_mid_never_reaches_other_section (r : Reg) (p : Pkt) (m : Bytes) (l : Lid) (v : Via)
+    (hm : MidUnknown r p m) (hrid : stageRid r p = none) (hd : (receive r p).2 = .delivered l v) :
+    sectionOf r l = none ∨ sectionOf r l = some m := by
+  unfold receive at hd
+  split at hd
+  · simp at hd
+  · rename_i l0 v0 b0 hs
+    obtain ⟨_, rfl, rfl⟩ := deliver_delivered _ _ _ _ _ _ hd
+    rcases select_cases r p _ _ _ hs with ⟨h1, _, _⟩ | ⟨_, h2, _, _⟩ | ⟨_, _, _, h4⟩
+    · rw [hrid] at h1; cases h1
+    · obtain ⟨he, hu, hl⟩ := hm
+      simp [stageMid, he, hu, hl] at h2
+    · have hno : ¬ OtherSection r p l := by
+        rw [← vetoed_iff]; simp [h4]
+      cases hs' : sectionOf r l with
+      | none => exact Or.inl rfl
+      | some m' =>
+        right
+        by_cases hmm : m' = m
+        · rw [hmm]
+        · exact absurd ⟨m, m', hm, hs', hmm⟩ hno
 
 /-- section "0": listener 0 (MID "0", payload type 96); MID extension id 3 -/
 def regA : Reg := run Reg.empty [.setMidExt 3, .regMid [0x30] 0, .regPts [96] 0]
 /-- a packet that says MID "9" (registered by nobody) with payload type 96 -/
 def pktA : Pkt := { ssrc := 7, pt := 96, ext := some { profile := 0xBEDE, data := [0x30, 0x39, 0, 0] } }
 
-/-- **mid_packet_dropped_when_unregistered** (holds since the `fix:` commit "drop an inbound RTP packet
-whose MID no receiver registered"; before it `regA`/`pktA` was a counter-example — the packet fell
-through to the payload-type rule, was handed to section "0"'s receiver and bound its SSRC there):
-a packet whose MID names a section nobody registered is dropped and changes nothing, unless its RID
-identifies a receiver. -/
-theorem mid_packet_dropped_when_unregistered (r : Reg) (p : Pkt) (m : Bytes)
-    (hm : extOf p r.midExt = some m) (hu : utf8Valid m = true) (hreg : lookup m r.byMid = none)
-    (hrid : stageRid r p = none) : receive r p = (r, .dropped) := by
-  have h1 : stageMid r p = none := by simp [stageMid, hm, hu, hreg]
-  have h2 : midMiss r p = true := by simp [midMiss, hm, hu, hreg]
-  simp [receive, select, hrid, h1, h2]
-
+/-- the round-1 counter-example is vetoed (section "0"'s receiver is "another section" for a packet
+naming "9") … -/
 example : receive regA pktA = (regA, .dropped) := by decide
-
-/-- sections "0" (listener 0) and "1" (listener 1), each with a simulcast layer listener registered
-under the same RID "h" (RIDs are only unique within a section): the later registration wins -/
-def regB : Reg :=
-  run Reg.empty [.setMidExt 3, .setRidExt 4, .regMid [0x30] 0, .regRid [0x68] 0, .regMid [0x31] 1, .regRid [0x68] 1]
-/-- a packet of section "0", layer "h" -/
-def pktB : Pkt := { ssrc := 7, pt := 96, ext := some { profile := 0xBEDE, data := [0x30, 0x30, 0x40, 0x68] } }
-
-/-- witness (`cross:rid-overrides-mid`): RID is looked up before MID and is not scoped by MID, so
-section "0"'s packet is handed to section "1"'s receiver although its MID is registered. -/
-theorem mid_packet_never_crosses_sections_witness : ¬ MidPacketNeverCrossesSections := by
-  intro h
-  have := h regB pktB [0x30] 1 .rid (by decide) (by decide) (by decide)
-  revert this; decide
-
-/-- **mid_packet_never_crosses_sections_partial**: the part that holds, for every registry and packet.
-If the packet's MID is REGISTERED (to `owner`), the packet is handed to `owner` — or, only when its
-RID extension matches a registered RID, to that RID's listener — and never to a listener found by
-SSRC, payload type or the provisional fallback; in particular with no RID match the packet reaches
-exactly the MID's listener or (closed channel) nobody. -/
-theorem mid_packet_never_crosses_sections_partial (r : Reg) (p : Pkt) (m : Bytes) (owner l : Lid) (v : Via)
-    (hm : extOf p r.midExt = some m) (hu : utf8Valid m = true) (hreg : lookup m r.byMid = some owner)
-    (hd : (receive r p).2 = .delivered l v) :
-    (l = owner ∧ v = .mid ∧ ridCand r p = none) ∨ (v = .rid ∧ ridCand r p = some l) := by
-  have hmid : stageMid r p = some owner := by simp [stageMid, hm, hu, hreg]
-  have hsel : select r p = (match stageRid r p with
-      | some l' => some (l', .rid, true) | none => some (owner, .mid, true)) := by
-    unfold select; cases stageRid r p <;> simp [hmid]
-  unfold receive at hd
-  rw [hsel] at hd
-  cases hr : stageRid r p with
-  | some l' =>
-    rw [hr] at hd
-    obtain ⟨_, rfl, rfl⟩ := deliver_delivered _ _ _ _ _ _ hd
-    exact Or.inr ⟨rfl, by rw [← stageRid_eq]; exact hr⟩
-  | none =>
-    rw [hr] at hd
-    obtain ⟨_, rfl, rfl⟩ := deliver_delivered _ _ _ _ _ _ hd
-    exact Or.inl ⟨rfl, rfl, by rw [← stageRid_eq]; exact hr⟩
+/-- … while the same packet still reaches a receiver that registered for no section (early media at
+a provisional listener whose MID is not known yet; an SSRC bound to a section-less receiver) — the
+behaviour c991109 had removed -/
+example : (receive (run Reg.empty [.setMidExt 3, .regProv 0]) pktA).2 = .delivered 0 .prov ∧
+    (receive (run Reg.empty [.setMidExt 3, .regSsrc 7 1]) pktA).2 = .delivered 1 .ssrc := by decide
 
 example : extOf pktB regB.midExt = some [0x30] ∧ lookup [0x30] regB.byMid = some 0 := by decide
 
@@ -754,36 +837,11 @@ theorem bridge_legacy_ssrc_per_rule (pr : Params) (p : Pkt) :
     · have : ¬ s = p.pt := fun e => hp e.symm
       simp [Rule.catchAll, Rule.dtmf, hp, this]
 
-/-! ### what reaches the socket when pushes are refused -/
-
-/-- **bridge_wire_seq_subsequence** ("consecutive at the target's socket" stated exactly): the bridge
-consumes a sequence number for every packet it rewrites, also for one whose push it then refuses
-(mandatory target without keys, protect error, socket full).  What reaches the socket is therefore a
-SUBSEQUENCE of the consecutive run of `bridge_seq_consecutive` — gaps appear exactly at refused
-packets and nowhere else; with nothing refused the two coincide. -/
-theorem bridge_wire_seq_subsequence (c : Cfg) (s : UInt32) (xs : List (In × Bool)) (ss : Streams) :
-    List.Sublist (wireOf c s ss xs) (outsOf c s ss (xs.map (·.1))) ∧
-    ((∀ x ∈ xs, x.2 = true) → wireOf c s ss xs = outsOf c s ss (xs.map (·.1))) := by
-  induction xs generalizing ss with
-  | nil => simp [wireOf, outsOf]
-  | cons x rest ih =>
-    obtain ⟨⟨p, a, b⟩, sent⟩ := x
-    obtain ⟨ih1, ih2⟩ := ih (forward c ss p a b).1
-    constructor
-    · simp only [wireOf, outsOf, List.map_cons]
-      by_cases hp : p.ssrc = s
-      · cases sent
-        · simp only [hp, if_true, Bool.false_eq_true, and_false, if_false, List.nil_append, List.singleton_append]
-          exact List.Sublist.cons _ ih1
-        · simp only [hp, and_self, if_true, List.singleton_append]
-          exact List.Sublist.cons_cons _ ih1
-      · simp only [hp, false_and, if_false, List.nil_append]; exact ih1
-    · intro hall
-      have hs : sent = true := hall ((p, a, b), sent) (by simp)
-      subst hs
-      simp only [wireOf, outsOf, List.map_cons]
-      rw [ih2 (fun x hx => hall x (by simp [hx]))]
-      by_cases hp : p.ssrc = s <;> simp [hp]
+/-! ### what reaches the socket when pushes are refused
+`wireOf` (Bridge.lean) filters the rewritten packets by a per-packet `sent` flag that is an INPUT (supplied by the
+harness from the case's configuration: target mandatory and still keyless).  That the wire is then a subsequence of
+the consecutive run is a list fact — lemma `wire_seq_subsequence` in `Lemmas/Bridge.lean`, not a property theorem.
+The content is on the implementation side: the drop-aware sequence oracle. -/
 
 /-! non-vacuity: a DTMF-remapping table, two interleaved sources, a wrap of the sequence number and a
 timestamp discontinuity -/
